@@ -6,6 +6,7 @@ import (
 	"bytes"
 	"encoding/xml"
 	"io"
+	"strings"
 
 	vrt "github.com/emersion/go-webdav/internal/zz_verifrt"
 )
@@ -18,12 +19,38 @@ var verifScriptErrAt int
 
 // verifStubDecoderToken replaces (*xml.Decoder).Token in the symbolic run.
 func verifStubDecoderToken(d *xml.Decoder) (xml.Token, error) {
+	// documented contract of (*xml.Decoder).Token: the bytes of a returned
+	// CharData, Comment, Directive or ProcInst.Inst refer to the decoder's
+	// internal buffer and are only valid until the next call: the stub
+	// overwrites them on every later call
+	verifClobber(verifLastToken)
+	verifLastToken = nil
 	if verifScriptPos == verifScriptErrAt || verifScriptPos >= len(verifScript) {
 		return nil, io.ErrUnexpectedEOF
 	}
 	t := verifScript[verifScriptPos]
 	verifScriptPos++
+	verifLastToken = t
 	return t, nil
+}
+
+var verifLastToken xml.Token
+
+func verifClobber(t xml.Token) {
+	var b []byte
+	switch x := t.(type) {
+	case xml.CharData:
+		b = x
+	case xml.Comment:
+		b = x
+	case xml.Directive:
+		b = x
+	case xml.ProcInst:
+		b = x.Inst
+	}
+	for i := range b {
+		b[i] = '#'
+	}
 }
 
 var verifEncodedTokens []xml.Token
@@ -159,20 +186,21 @@ func VerifH_C15_Capture() {
 	var d *xml.Decoder
 	if vrt.Symbolic() {
 		d = &xml.Decoder{}
-		want = append(want, verifScript...)
+		verifLastToken = nil
+		for _, t := range verifScript {
+			want = append(want, xml.CopyToken(t))
+		}
 	} else {
-		// native: a real decoder over the script (it may normalise names)
-		d = xml.NewTokenDecoder(&verifScriptReader{toks: append([]xml.Token{start}, verifScript...), err: -2})
-		first, err := d.Token()
+		// native: the real text decoder over the serialised script (its
+		// tokens alias its internal buffer, as documented)
+		full := verifSerialise(start, verifScript, -1)
+		probe := xml.NewDecoder(strings.NewReader(full))
+		first, err := probe.Token()
 		if err != nil {
 			vrt.Assume(false)
 		}
 		start = first.(xml.StartElement).Copy()
 		want = []xml.Token{start}
-		ref := xml.NewTokenDecoder(&verifScriptReader{toks: append([]xml.Token{xml.StartElement{Name: symNameNative(start)}}, verifScript...), err: -2})
-		_ = ref
-		probe := xml.NewTokenDecoder(&verifScriptReader{toks: append([]xml.Token{start}, verifScript...), err: -2})
-		probe.Token()
 		for {
 			t, err := probe.Token()
 			if err != nil {
@@ -180,10 +208,12 @@ func VerifH_C15_Capture() {
 			}
 			want = append(want, xml.CopyToken(t))
 		}
+		text := full
 		if verifScriptErrAt >= 0 {
-			d = xml.NewTokenDecoder(&verifScriptReader{toks: append([]xml.Token{start}, verifScript...), err: verifScriptErrAt + 1})
-			d.Token()
+			text = verifSerialise(start, verifScript, verifScriptErrAt)
 		}
+		d = xml.NewDecoder(strings.NewReader(text))
+		d.Token()
 	}
 
 	var val RawXMLValue
@@ -331,4 +361,43 @@ func verifNormalise(toks []xml.Token) []xml.Token {
 		}
 	}
 	return out
+}
+
+// verifSerialise (native run) prints the start tag and the first upto
+// tokens of the script (all of them for upto < 0) as XML text.
+func verifSerialise(start xml.StartElement, script []xml.Token, upto int) string {
+	var sb strings.Builder
+	printStart := func(st xml.StartElement) {
+		sb.WriteString("<" + st.Name.Local + " xmlns=\"" + st.Name.Space + "\"")
+		for i, a := range st.Attr {
+			if a.Name.Space != "" {
+				p := "p" + string(rune('a'+i))
+				sb.WriteString(" xmlns:" + p + "=\"" + a.Name.Space + "\" " + p + ":" + a.Name.Local + "=\"" + a.Value + "\"")
+			} else {
+				sb.WriteString(" " + a.Name.Local + "=\"" + a.Value + "\"")
+			}
+		}
+		sb.WriteString(">")
+	}
+	printStart(start)
+	for i, t := range script {
+		if upto >= 0 && i >= upto {
+			break
+		}
+		switch x := t.(type) {
+		case xml.StartElement:
+			printStart(x)
+		case xml.EndElement:
+			sb.WriteString("</" + x.Name.Local + ">")
+		case xml.CharData:
+			sb.WriteString(string(x))
+		case xml.Comment:
+			sb.WriteString("<!--" + string(x) + "-->")
+		case xml.ProcInst:
+			sb.WriteString("<?" + x.Target + " " + string(x.Inst) + "?>")
+		case xml.Directive:
+			sb.WriteString("<!" + string(x) + ">")
+		}
+	}
+	return sb.String()
 }
